@@ -113,7 +113,7 @@ def teams_tokens(teams):
 
 def rate_line(g):
     toks = ["RATE", g["kind"], g.get("leaves", "c"), f2h(g["beta"]), f2h(g["kappa"]), f2h(g["tau"]),
-            "1" if g["ls"] else "0", "D" if g["gamma"][0] == "T" else g["gamma"][0], f2h(g["gamma"][1]),
+            "1" if g["ls"] else "0", g["gamma"][0], f2h(g["gamma"][1]),
             "-" if g["tauopt"] is None else f2h(g["tauopt"]),
             "-" if g["lsopt"] is None else ("1" if g["lsopt"] else "0"),
             g["oc"][0]]
